@@ -256,6 +256,39 @@ def system(R, rng, tier):
     return len(progs)
 
 
+def cli_counters(R, rng, tier):
+    """Through the command line, for targets of every spelling: the run's nosec and skipped_tests totals equal the number of
+    findings the same run reports in addition under --ignore-nosec."""
+    import climain
+    import json
+    import os
+    import shutil
+    d = os.path.join(impl.scratch(), "c02c")
+    shutil.rmtree(d, ignore_errors=True)
+    os.makedirs(os.path.join(d, "_vendor"))
+    os.makedirs(os.path.join(d, "src"))
+    files = {"_vendor/a.py": "assert a  # nosec\nassert b  # nosec B101\nassert c  # nosec B602\n",
+             "src/b.py": "import subprocess\nsubprocess.Popen('ls *', shell=True)  # nosec\nexec(x)  # nosec exec_used\n",
+             "_top.py": "assert t  # nosec\n"}
+    for f, src in files.items():
+        open(os.path.join(d, f), "w").write(src)
+    for ts in (["-r", "_vendor"], ["-r", "_vendor", "src"], ["-r", "."], ["-r", "./_vendor"], ["_top.py"], ["-r", "src", "_top.py"]):
+        a = climain.run_main(["-q", "-f", "json", "--exit-zero"] + ts, cwd=d)
+        b = climain.run_main(["-q", "-f", "json", "--exit-zero", "--ignore-nosec"] + ts, cwd=d)
+        R.case(("cli", tuple(ts)), nontrivial=True, sample={"targets": ts})
+        R.count("cli-counters")
+        if a["exception"] or b["exception"]:
+            R.violations.append({"what": "no report for targets %s" % ts, "input": {"targets": ts}, "observed": a["exception"] or b["exception"], "signature": None})
+            continue
+        ja, jb = json.loads(a["stdout"]), json.loads(b["stdout"])
+        withheld = len(jb["results"]) - len(ja["results"])
+        tot = ja["metrics"]["_totals"]
+        if tot["nosec"] + tot["skipped_tests"] != withheld:
+            R.violations.append({"what": "targets %s: nosec(%d)+skipped_tests(%d) != %d findings withheld" % (ts, tot["nosec"], tot["skipped_tests"], withheld),
+                                 "input": {"targets": ts, "files": files}, "observed": tot, "signature": None})
+    shutil.rmtree(d, ignore_errors=True)
+
+
 def run(R, replay=None):
     rng = random.Random(R.seed)
     for f in core.gen():
@@ -272,4 +305,5 @@ def run(R, replay=None):
     unit_parse(R, rng, R.tier)
     unit_decision(R, rng, R.tier)
     system(R, rng, R.tier)
+    cli_counters(R, rng, R.tier)
     R.disagreements_checked = R.evaluations
